@@ -12,7 +12,8 @@ VARIABLE l
 Trace == ndJsonDeserialize(TraceFile)
 
 Install(st) ==
-  /\ reg' = st.reg /\ online' = st.online /\ approved' = st.approved /\ power' = st.power /\ totalPower' = st.totalPower
+  /\ reg' = st.reg /\ online' = st.online /\ approved' = st.approved /\ stake' = st.stake /\ power' = st.power
+  /\ totalPower' = st.totalPower /\ threshold' = st.threshold
   /\ sets' = st.sets /\ latest' = st.latest /\ slashedSet' = st.slashedSet /\ lastObsSet' = st.lastObsSet
   /\ batches' = st.batches /\ slashedBatch' = st.slashedBatch /\ calls' = st.calls /\ slashedCall' = st.slashedCall
   /\ props' = st.props
